@@ -246,7 +246,9 @@ func (w *World) checkUnique(n *Node, prev, cur *Snap, op OpInfo) {
 	byTrx := map[H][]H{}
 	for h, l := range cur.Live {
 		byTrx[l.V.Transaction.Hash] = append(byTrx[l.V.Transaction.Hash], h)
-		if _, ok := cur.Stored[h]; ok {
+		if cur.Dup[h] && !n.Interrupted {
+			// (after a truncation that the harness interrupted through its context the storage holds copies of vertices
+			// that never left the graph; that situation is outside the quantifier of C03 and is not judged)
 			w.Violate("C03", "vertex-live-and-checkpointed", fmt.Sprintf("node %s: vertex %s is both in the live DAG and in the checkpoint storage", n.Name, Hex(h)))
 		}
 	}
